@@ -279,8 +279,15 @@ class PersistScenario(StateScenario):
         super().apply(st, op, rec)
 
     def valid_state(self, st, cfg):
+        """The state passes validation: the configuration's own validate() and that of every configuration held
+        in a list (validate() does not descend into list items, which are validated when loaded or inserted; an
+        item made invalid afterwards, e.g. by resetting a required field, is not a valid state to save)."""
         try:
             cfg.validate()
+            owners, _ = self.cfg_nodes(st, cfg)
+            for p, obj in owners.items():
+                if p.endswith("]"):
+                    obj.validate()
             return True
         except SeamGap:
             raise
@@ -366,14 +373,12 @@ class PersistScenario(StateScenario):
         journal = w.journal[j0:]
         if self.prop == "C03":
             self.check_secrets_on_disk(st, rec, content, fmt, opts, secrets, keys, journal, "save")
+        # explicit key-file assignments in effect, by the *current* path of the object they were made on
         layout = {}
-        for lp, lf in st.layout.items():
-            try:
-                obj = ops.resolve(cfg, lp)
-            except Exception:  # noqa: BLE001
-                continue
-            if isinstance(obj, Config) and st.keyset.get(st.serials.of(obj), "<none>") == lf:
-                layout[lp] = lf
+        for lp, obj in owners.items():
+            ser = st.serials.of(obj)
+            if ser in st.keyset:
+                layout[lp] = st.keyset[ser]
         doc = {"file": fname, "fmt": fmt, "opts": opts, "view": view, "layout": layout, "secrets": [(p, v) for p, _, v, _ in secrets],
                "session": st.session, "virtual": bool(op.get("virtual")), "keys": keys}
         st.docs = [d for d in st.docs if w.abspath(w.expanduser(d["file"])) != w.abspath(w.expanduser(fname))]
